@@ -210,6 +210,10 @@ func (p *Program) localMods(sv *VC, f *ssa.Function, in ssa.Instruction, ms *Mod
 			return
 		}
 		if fn, ok := c.Value.(*ssa.Function); ok && !c.IsInvoke() && (fn.Pkg == nil || !isModulePkg(fn.Pkg.Pkg)) {
+			if fn.String() == "fmt.Errorf" || fn.String() == "errors.New" {
+				sv.compDecl("Gerr_n", SInt)
+				note("Gerr_n", false)
+			}
 			if fn.String() == "hash/fnv.New64a" {
 				sv.compDecl("Ghash_data", "(Array Int Str)")
 				note("Ghash_data", false)
@@ -524,4 +528,100 @@ func freshSlice(v ssa.Value, seen map[ssa.Value]bool) bool {
 		return false
 	}
 	return false
+}
+
+// unsharedLocalSlice: v is a slice built in this function (make / literal / nil / append chain) and
+// no value of that chain is ever stored, passed to a call, or re-sliced: the only way its backing
+// array is reached is through the latest value of the chain.  For such a slice an append that writes
+// in place and one that reallocates are indistinguishable, so append may be modelled as reallocating.
+func unsharedLocalSlice(v ssa.Value) bool {
+	if !freshSlice(v, map[ssa.Value]bool{}) {
+		return false
+	}
+	seen := map[ssa.Value]bool{}
+	var chain func(x ssa.Value) bool
+	chain = func(x ssa.Value) bool {
+		if seen[x] {
+			return true
+		}
+		seen[x] = true
+		switch y := x.(type) {
+		case *ssa.Const:
+			return true
+		case *ssa.MakeSlice:
+		case *ssa.Slice:
+			if _, ok := y.X.(*ssa.Alloc); !ok {
+				return false
+			}
+			// the array of a composite literal: only this slice may refer to it
+			for _, r := range *y.X.Referrers() {
+				switch rr := r.(type) {
+				case *ssa.Slice, *ssa.DebugRef:
+				case *ssa.IndexAddr:
+					for _, r2 := range *rr.Referrers() {
+						if _, isStore := r2.(*ssa.Store); !isStore {
+							return false
+						}
+					}
+				default:
+					return false
+				}
+			}
+		case *ssa.Phi:
+			for _, e := range y.Edges {
+				if !chain(e) {
+					return false
+				}
+			}
+		case *ssa.Call:
+			b, ok := y.Call.Value.(*ssa.Builtin)
+			if !ok || b.Name() != "append" {
+				return false
+			}
+			if !chain(y.Call.Args[0]) {
+				return false
+			}
+		default:
+			return false
+		}
+		// uses of this value
+		inst, ok := x.(ssa.Instruction)
+		if !ok {
+			return true
+		}
+		_ = inst
+		if refs := x.Referrers(); refs != nil {
+			for _, r := range *refs {
+				switch rr := r.(type) {
+				case *ssa.Phi, *ssa.DebugRef:
+					if ph, ok := rr.(*ssa.Phi); ok && !chain(ph) {
+						return false
+					}
+				case *ssa.IndexAddr:
+					// element reads / writes through the current value
+				case *ssa.Call:
+					b, ok := rr.Call.Value.(*ssa.Builtin)
+					if !ok {
+						return false
+					}
+					switch b.Name() {
+					case "len", "cap":
+					case "append":
+						if rr.Call.Args[0] != x {
+							return false // appended *to another slice*: its elements are copied, fine only for non-reference use; be conservative
+						}
+						if !chain(rr) {
+							return false
+						}
+					default:
+						return false
+					}
+				default:
+					return false
+				}
+			}
+		}
+		return true
+	}
+	return chain(v)
 }
